@@ -97,8 +97,12 @@ class Analysis:
                 self._walk(fd.selection_set, self.schema.type_map[fd.type_condition.name.value], acc, seen)
 
     # ---- the closure the property names (BFS, deliberately not the generator's DFS) ----
+    custom = False
+    builder_inputs: list = []
+    builder_enums: list = []
+
     def spec_inputs(self) -> set[str]:
-        todo = list(dict.fromkeys(self.arg_inputs))
+        todo = list(dict.fromkeys(self.arg_inputs + list(self.builder_inputs)))
         out = set()
         while todo:
             n = todo.pop()
@@ -109,7 +113,7 @@ class Analysis:
         return out
 
     def spec_enums(self, retained_inputs) -> set[str]:
-        out = set(self.arg_enums) | set(self.res_enums) | set(self.frag_enums)
+        out = set(self.arg_enums) | set(self.res_enums) | set(self.frag_enums) | set(self.builder_enums)
         for i in retained_inputs:
             out |= set(self.graph[i][1])
         return out
